@@ -168,6 +168,18 @@ def run(shard, ctx):
                             break
             except Exception as e:  # noqa: BLE001
                 ctx.fail("C02:%s.roundtrip_raises" % c.name, "build_cdb with a sibling operation code raised %s" % type(e).__name__, wit, exc=e)
+            # a field left out of the dictionary is a field that is zero: the same bytes as with the field given as 0
+            try:
+                keys = [k for k in fields if k != "opcode"]
+                if keys:
+                    drop = set(rng.sample(keys, rng.randint(1, len(keys))))
+                    part = {k: v for k, v in fields.items() if k not in drop}
+                    zeroed = {k: (0 if k in drop else v) for k, v in fields.items()}
+                    ctx.count("partial_dictionaries_encoded")
+                    if bytes(cls.marshall_cdb(dict(part))) != bytes(cls.marshall_cdb(dict(zeroed))):
+                        ctx.fail("C02:%s.absent_field_is_not_zero" % c.name, "marshall_cdb without %s = %s, with them given as 0 = %s" % (sorted(drop), bytes(cls.marshall_cdb(dict(part))).hex(), bytes(cls.marshall_cdb(dict(zeroed))).hex()), wit)
+            except Exception as e:  # noqa: BLE001
+                ctx.fail("C02:%s.roundtrip_raises" % c.name, "marshall_cdb of a partial dictionary raised %s" % type(e).__name__, wit, exc=e)
             # a deep copy is a command of its own: scribbling over the copy's CDB leaves this command's CDB alone
             try:
                 import copy as _copy
